@@ -110,6 +110,16 @@ impl Scratch {
         fs::create_dir_all(&path).unwrap();
         Scratch { path, keep: false }
     }
+    /// A scratch directory whose path is a function of `key` only (fixed length,
+    /// no pid): byte-exact replays need the same absolute paths, because cache
+    /// blobs and manifests embed them.
+    pub fn fixed(key: u64) -> Scratch {
+        let root = std::env::var("VERIF_SCRATCH").unwrap_or_else(|_| "/verif/target/scratch".to_string());
+        let path = PathBuf::from(root).join("f").join(format!("{key:016x}"));
+        let _ = fs::remove_dir_all(&path);
+        fs::create_dir_all(&path).unwrap();
+        Scratch { path, keep: false }
+    }
     pub fn keep(&mut self) {
         self.keep = true;
     }
